@@ -528,14 +528,15 @@ class Peer:
             self.proto.negotiated.received(received_open)
             self.proto.negotiated.received(received_open)
 
-            self.proto.connection.msg_size = self.proto.negotiated.msg_size
-
             # if we mirror the ASN, we need to read first and send second
             if not self.neighbor.session.local_as:
                 sent_open = await self._send_open()
                 self.proto.negotiated.sent(sent_open)
                 self.proto.negotiated.sent(sent_open)
                 self.fsm.change(FSM.OPENSENT)
+
+            # only once both OPEN are known: before that nothing is negotiated and the size is the default
+            self.proto.connection.msg_size = self.proto.negotiated.msg_size
 
             self.proto.validate_open()
             self.fsm.change(FSM.OPENCONFIRM)
